@@ -305,6 +305,6 @@ reg(Check("C16", "model_checking",
           text=XS_NOTE + "; plus exhaustive enumeration of HTTP request shapes through the real handlers",
           note="trusted: memdb store contract (FileDeleteUnused / FileLinkAttachments semantics transcribed from MySQL)",
           technique="explicit-state model checking over the real handlers + exhaustive request-shape enumeration",
-          engine="E2 xstate + E4 enum", claimed=False,
+          engine="E2 xstate + E4 enum", claimed=True,
           parts=[Part("requests", SRV, "^TestVerifC16Requests$", instr=True, shards=(16, 16), deadline=(300, 2400)),
                  Part("files", SRV, "^TestVerifC16Files$", instr=True, gomaxprocs=16, deadline=(300, 2400))]))
